@@ -321,6 +321,10 @@ func TestC12_Grid(t *testing.T) {
 				}
 				cases = append(cases, C12Case{Limit: l, Size: rel.s, Payload: "valid-padded", Kind: kind, Level: 6, Relation: rel.n})
 				cases = append(cases, C12Case{Limit: l, Size: rel.s, Payload: "valid-ws-padded", Kind: kind, Level: 1, Relation: rel.n})
+				if L != defaultLimit || h.Thorough() {
+					// stored blocks make the compressed form LARGER than its expansion; Huffman-only barely shrinks it
+					cases = append(cases, C12Case{Limit: l, Size: rel.s, Payload: "valid-padded", Kind: kind, Level: 0, Relation: rel.n}, C12Case{Limit: l, Size: rel.s, Payload: "valid-padded", Kind: kind, Level: -2, Relation: rel.n})
+				}
 			}
 			bomb := int64(32 << 20)
 			if h.Thorough() {
